@@ -1,16 +1,97 @@
 """per-property claim texts for MANIFEST.json (see tools_gen_manifest.py)"""
 
+TB = ("Trusted base (DESIGN.md section 2): documented asyncio/CPython behaviour (wait/create_task/cancel/Queue/Task "
+      "states, C3 MRO, set algebra, short-circuit evaluation); user job code is opaque and honours cancellation. ")
+ENGINE = "path-sensitive abstract interpretation over the AST (provenance terms, fold summaries, exceptional edges)"
+
+
+def c(text, declined, technique):
+    return {"text": text, "note": TB + "Not decided: " + declined, "technique": technique}
+
+
 CLAIMS = {
-    "C07": {
-        "text": "Decides the safety clause by typestate analysis of the window wrapper over every path, including "
-                "cancellation and job-exception edges (body and running flag only while a slot is held, release only "
-                "if held), provenance of the queue bound, one window per activation sized by the scheduler's own "
-                "jobs_window, and a who-may-start rule over every co_run call site of the package. All paths, hence "
-                "all schedules and outcomes; the bound enforced by asyncio.Queue itself is trusted.",
-        "note": "Trusted: asyncio.Queue(maxsize) semantics, cancellation only at suspension points, user job code "
-                "does not touch scheduler-private state.",
-        "technique": "typestate + provenance dataflow over the AST (path-sensitive abstract interpretation)",
-    },
+    "C01": c("Decides, over every path of the run (hence every completion order, window, flag combination), that a "
+             "task is created only for the members without requirement before the first wait, or under the "
+             "fold-classified fact `all requirements is_done()` for that very job; that no other co_run call site "
+             "exists; that is_done is true exactly on finished tasks; that the nested body is the awaited inherited run.",
+             "asyncio's own semantics.", ENGINE + " + truth table of is_done + who-may-call scan"),
+    "C02": c("Decides the accounting shape behind `return True` (accumulator from 0, once per iteration, of non-forever "
+             "tasks of the current done set, against the number of non-forever members), that the main wait covers "
+             "every live task and no finished one, and that the already-started test is synchronous with task creation.",
+             "nothing of the statement is left to runtime except asyncio itself.", ENGINE),
+    "C03": c("Necessary conditions only: absence of the wedges the property names -- window slot free on every exit "
+             "of the wrapper (typestate with cancellation and exception edges), failed requirements count as done and "
+             "release successors gathered from all done tasks, every main wait re-armed with deadline-now.",
+             "termination of run() for all schedules (liveness proper).", "typestate + " + ENGINE),
+    "C04": c("Decides exit <-> verdict <-> cause-flag consistency on every return of the run, the truth tables of "
+             "failed_time_out/failed_critical/why over unset / timeout 0 / positive timeout, the critical mapping of the "
+             "nested form over path facts (including exception identity), and that the wrapper never replaces an exception.",
+             "which cause wins when expiry, last completion and a critical failure share one loop iteration.",
+             ENGINE + " + truth tables of pure accessors"),
+    "C05": c("Decides that the abort flag is exactly `exists done task: raised and critical`, that every successor start "
+             "follows a negative abort test of the same iteration, and that the abort path is cancel-all -> await-all "
+             "(unbounded) -> shutdown -> return False with no wait for normal completion.",
+             "'at that same instant' as wall-clock.", ENGINE + " + EXIT automaton"),
+    "C06": c("Decides non-interference: a done task's outcome reaches scheduling decisions only in the exact masked form "
+             "raised-and-critical; same slot effect on both outcomes of the wrapper; failed jobs counted and their "
+             "successors released; the exception stays retrievable (registry never overwritten).",
+             "equality of the timed traces of two runs (relational).", "taint (non-interference) over path facts and provenance terms"),
+    "C07": c("Decides the safety clause by typestate analysis of the window wrapper over every path, provenance of the "
+             "queue bound, one window per activation sized by the scheduler's own jobs_window, and a who-may-start rule.",
+             "the bound enforced by asyncio.Queue itself.", "typestate + provenance dataflow"),
+    "C08": c("Decides that the deadline is stored once per activation before the loop as clock()+own timeout, never "
+             "between two main waits, that every main wait is armed with deadline-clock() (same clock), and that the "
+             "expiry path is tidy -> shutdown -> False with the timeout cause.",
+             "behaviour exactly at T; clock quality.", ENGINE + " + EXIT automaton"),
+    "C09": c("Decides that `forever` influences no start condition, candidate set or wait argument, that both sides of "
+             "the completion test count non-forever jobs only, and that the success exit cancels and awaits what is pending.",
+             "instants.", ENGINE),
+    "C10": c("Decides the C3 MRO table of the nestable class (which side supplies each life-cycle method, both "
+             "constructors), that the nested body is the awaited inherited run with window and deadline per activation, "
+             "and the failure mapping and identity.",
+             "'same times as the flattened graph' (timing).", "MRO computation + " + ENGINE),
+    "C11": c("Decides task-group discipline on every normal exit and, with a CancelledError edge forked at every "
+             "may-suspend await of the run (inlined into the nested form) and of the broadcast, that every path leaving "
+             "the ownership scope has cancelled and awaited all owned tasks; checks that every cancel() is part of "
+             "cancel-all-then-await-unbounded (single-cancellation model).",
+             "job code that swallows CancelledError.", ENGINE + " with cancellation edges"),
+    "C12": c("Necessary conditions: all entry jobs started before the first wait; candidates = union over all done "
+             "tasks of their successors, all visited; reverse links rebuilt and exact; guard no stronger than needed; "
+             "no suspension while a slot is held.",
+             "FIFO hand-over of asyncio.Queue; timing.", ENGINE),
+    "C13": c("Decides tidy -> shutdown -> return on every exit, atomic early once-guard with a single writer, total "
+             "unfiltered broadcast through member dispatch (MRO relay for nested schedulers), bounded wait by "
+             "shutdown_timeout then cancel-and-await of stragglers, truthful boolean result.",
+             "handler durations.", ENGINE + " + MRO"),
+    "C14": c("Decides the truth tables of the six inspection methods over the 7-point life-cycle domain for the job "
+             "base class and the nestable class, writer monotonicity of the registry and running flag, and identity "
+             "flow of results and exceptions.",
+             "nothing beyond the meaning of asyncio.Task internals.", "truth tables by abstract evaluation + writer tables"),
+    "C15": c("Decides the five proof obligations of the marking algorithm on topological_order (guard = all requirements "
+             "marked and self unmarked, nothing else; progress or raise; count-guarded end; marks reset) and both forms "
+             "of check_cycles.",
+             "nothing: here the structural clauses are the argument.", ENGINE + " with fold summaries"),
+    "C16": c("Decides closure (every member's requirements intersected with the receiver's own member set), minimality "
+             "(no other writer), unconditional recursion, and the fold truth table of the returned value over "
+             "(flag, removed, nested, nested result).",
+             "nothing.", "fold summary / truth table of the member loop"),
+    "C17": c("Decides direction agreement by constant propagation, freshness of reverse links on every path of the "
+             "public queries, the step (union over all starts, members only) and closure (fixpoint) shapes, yield "
+             "conditions of entry_jobs/exit_jobs, and traversal siblings.",
+             "nothing beyond set semantics; the helper shapes are matched structurally (unknown shapes are inconclusive).",
+             "constant propagation + " + ENGINE + " + structural rules"),
+    "C18": c("Necessary conditions: sanitize after narrowing; bypass step set (membership test first, downstreams, full "
+             "product with orientation, only the job removed); documented set terms of keep_only/keep_only_between.",
+             "preservation of the transitive closure over all DAGs (relational).", "provenance terms + " + ENGINE),
+    "C19": c("Decides the chain invariant across all writers of Sequence.jobs, emptiness guards of every first/last "
+             "subscript, that every dispatch branch of requires() honours remove (with KeyError form) and forwards it, "
+             "indices/identity/None handling, and registration paths.",
+             "nothing.", ENGINE + " (sibling and deviance rules)"),
+    "C20": c("Decides quoting of every attribute value and typing of every emitter hole, the 4-case edge table "
+             "(exhaustive, exactly one per requirement, orientation, lhead/ltail), ids before use and tree-wide "
+             "numbering, raises reachable from dot_format, DOT-subset conformance and brace balance.",
+             "validity of arbitrary label text beyond the quoter's contract; flag->style constants; rendering.",
+             "taint/typing of format holes + " + ENGINE),
 }
 
 NOT_YET = {}
